@@ -34,6 +34,10 @@ func debugCase(line string) {
 	if d.kind != dMap {
 		d = dM()
 	}
+	sp = nil
+	if spellState := r.U64(); spellState%3 != 0 {
+		sp = coqfmt.NewRng(spellState)
+	}
 	fmt.Println(T)
 	for f := 0; f < 4; f++ {
 		text := render(f, d)
